@@ -79,6 +79,11 @@ func (g *scopeGen) observe() {
 		args = args[:12]
 	}
 	vs := g.visible()
+	// the same bindings as shorthand properties: the property keeps its name whatever the variable is called
+	if len(args) >= 2 && g.r.Chance(1, 3) {
+		k := len(args) - 1
+		args = append(args, "{"+args[0]+","+args[k]+"}")
+	}
 	// free globals named like generated names, read from inside
 	for k := 0; k < 2; k++ {
 		fg := g.r.Pick(renamerNames)
@@ -222,7 +227,9 @@ func (g *scopeGen) params() string {
 			outer := ""
 			for k := len(g.stack) - 2; k >= 0 && outer == ""; k-- {
 				for _, o := range g.stack[k] {
-					if o != n && o != "Q" && !contains(names, o) {
+					// (not a name of this parameter list, nor one that a destructuring parameter of the list derives:
+					// a default reading a later parameter of the same list is a reference error, not an outer read)
+					if o != n && o != "Q" && !contains(names, o) && !(strings.HasSuffix(o, "3") && contains(names, o[:len(o)-1])) {
 						outer = o
 						break
 					}
